@@ -143,6 +143,16 @@ CHECKS['C09'] = dict(
     note='Not decided: SET expression evaluation on pre-update values, INSERT coercion (value-level).',
     design='§4 C09')
 
+CHECKS['C28'] = dict(
+    technique='linear length accounting (T13): abstract interpretation of each encoder arm in the domain of linear forms over symbolic field lengths, path-wise with one symbolic loop iteration and consistent Option cases; protocol layout table (T8)',
+    text='Proves for every BackendMessage variant and all field contents that the declared frame length equals 4 + the bytes written after '
+         'it (put_u8/i16/i32 = 1/2/4, put_slice = |x|, put_cstring = |s|+1, loops = Σ over the collection, Option = case split), and that '
+         'type byte and authentication sub-code match the PostgreSQL v3 table; a new variant or an encoder call the domain does not know '
+         'fails closed.',
+    note='Not decided: re-parsing by an independent protocol parser; narrowing casts of counts (usize as i16/i32) are reported in the '
+         'evidence, not alarmed. Assumes per-element additivity for mixed NULL/non-NULL rows.',
+    design='§4 C28')
+
 NOT_APPLICABLE = {
     'C01': 'Equality of result multisets with a reference engine is a value-level semantic equivalence over all queries and data; no structural necessary condition beyond those claimed under C06/C21/C24 exists and a static rule cannot stand in for an oracle.',
     'C03': 'Columnar-vs-row agreement is determined by computed values (empty input, NULL handling, sums); a rejected shape falls back safely, so no table-agreement obligation exists whose breach necessarily changes results.',
